@@ -64,6 +64,8 @@ def run(R):
     R.rule("C16.float", "a key type with a float field defines eq, partial_cmp, cmp and hash on one total key (f64::total_cmp / to_bits of "
                         "the same canonicalised value); no IEEE comparison operator and no derived impl takes part")
     R.rule("C16.custom", "no consumer bypasses the trait impls with an ad-hoc comparator on key-typed elements")
+    R.rule("C16.minmax", "MIN / MAX decide through Value's own total order (the order WHERE, group ordering and PERCENTILE use), with no "
+                         "conversion of the operands to f64")
     R.rule("C16.numcmp", "ordered comparisons of values in WHERE convert an INT operand to REAL before comparing (not ordered by variant)")
     reach = P.reachable(rules_sites.roots(R, "EXEC") + rules_sites.roots(R, "PARSE"))
     seed = set()
@@ -200,6 +202,9 @@ def run(R):
                                                               "is no longer transitive" % bad[0], [bad[0].split(" ")[0]])
         else:
             R.ok("C16.numcmp", "evaluate|no-real-to-int", "no REAL -> INT conversion in the comparison arm or its helpers", ev.loc())
+    # MIN / MAX use the same total order as WHERE, ORDER of groups and PERCENTILE: no numeric side channel
+    from . import rules_c04
+    rules_c04._minmax(R, "C16.minmax")
     run_keys(R)
 
 
@@ -259,7 +264,8 @@ def _check_float_type(R, P, a, ims, loc):
     # hash feeds the same key as cmp compares
     kc = local_keyfns(cmp_f)
     # helpers of hash() other than the comparison key function are looked through (e.g. `canonical_bits()` = `canonical().to_bits()`)
-    h_f = PR.view(P, h_f, keep="|".join(re.escape(k) + "$" for k in kc) if kc else None)
+    h_f = PR.view(P, h_f, keep="|".join(re.escape(k) + "$" for k in kc) if kc else None,
+                  hold="|".join(re.escape(k) + "$" for k in kc) if kc else None)
     kh = local_keyfns(h_f)
     raw_transmute = any(s["rv"]["k"] == "cast" and s["rv"]["ck"] == "Transmute" for _, s in h_f.stmts())
     if raw_transmute or kc != kh:
